@@ -24,7 +24,11 @@ Inductive case :=
 (** propose_shielding; [oracle] logs the change strategy's compute_balance calls (sorted input ids) *)
 | CShield (udb : list utxo_row) (e : env) (threshold : Z) (addrs : list Z) (pol : policy) (zero_conf : bool)
           (f : cbfilter) (lp : lip) (iw : bool) (lock : option (Z * Z))
-          (oracle : list (list Z * tchange_result)) (obs : outcome (list step) perr).
+          (oracle : list (list Z * tchange_result)) (obs : outcome (list step) perr)
+(** store_transactions_to_be_sent (through create_proposed_transactions) of a transaction spending
+    the notes [refs] and the transparent outputs [tids]; row dumps of ALL pools before and after *)
+| CStore (db : list note_row) (udb : list utxo_row) (target : Z) (refs : list (pool * Z)) (tids : list Z)
+         (post : list note_row) (upost : list utxo_row).
 
 (** ** helpers *)
 
@@ -86,6 +90,20 @@ Definition find_utxo (udb : list utxo_row) (i : Z) : option utxo_row := find (fu
 Fixpoint nodup_z (l : list Z) : bool :=
   match l with [] => true | x :: t => negb (existsb (Z.eqb x) t) && nodup_z t end.
 
+Definition find_row (db : list note_row) (x : pool * Z) : option note_row :=
+  find (same_ref x) db.
+
+(** lock columns and spender count of the stored row agree with the model row *)
+Definition lock_agrees (m r' : note_row) (grew : bool) (r : note_row) : bool :=
+  option_eqb Z.eqb (r_lock r') (r_lock m) && option_eqb Z.eqb (r_owner r') (r_owner m)
+  && (length (r_spenders r') =? length (r_spenders r) + (if grew then 1 else 0))%nat.
+
+Definition u_lock_agrees (m u' : utxo_row) (grew : bool) (u : utxo_row) : bool :=
+  option_eqb Z.eqb (u_lock u') (u_lock m) && option_eqb Z.eqb (u_owner u') (u_owner m)
+  && (length (u_spenders u') =? length (u_spenders u) + (if grew then 1 else 0))%nat.
+
+Definition live_lock (target : Z) (l : option Z) : bool := match l with Some x => target <=? x | None => false end.
+
 Definition FUEL : nat := 64.
 
 (** ** model = implementation *)
@@ -115,12 +133,17 @@ Definition run_case (c : case) : bool :=
       outcome_eqb (list_eqb step_eqb) perr_eqb
         (propose_shielding (toracle_fn oracle) udb e (Some (e_target e - 1)) threshold addrs pol zc f lp iw lock)
         obs
+  | CStore db udb target refs tids post upost =>
+      forallb (fun r => match find_row post (r_pool r, r_id r) with
+                        | Some r' => lock_agrees (if spent_by refs r then clear_lock r else r) r' (spent_by refs r) r
+                        | None => false end) db
+      && forallb (fun u => match find_utxo upost (u_id u) with
+                           | Some u' => u_lock_agrees (if u_spent_by tids u then u_clear_lock u else u) u' (u_spent_by tids u) u
+                           | None => false end) udb
   end.
 
 (** ** the property, evaluated on the implementation's outcome against the independent row dump *)
 
-Definition find_row (db : list note_row) (x : pool * Z) : option note_row :=
-  find (same_ref x) db.
 
 Definition all_spendable (db : list note_row) (mk : pool -> scfg) (refs : list (pool * Z)) : bool :=
   forallb (fun x => match find_row db x with
@@ -217,6 +240,18 @@ Definition prop_case_t (c : case) : bool :=
           && (threshold <=? s_change s + s_fee s)
       | Ok _ => false
       end
+  | CStore db udb target refs tids post upost =>
+      (* a live lock is still there unless its own output was spent by the stored transaction *)
+      forallb (fun r => if live_lock target (r_lock r) && negb (spent_by refs r)
+                        then match find_row post (r_pool r, r_id r) with
+                             | Some r' => option_eqb Z.eqb (r_lock r') (r_lock r) && option_eqb Z.eqb (r_owner r') (r_owner r)
+                             | None => false end
+                        else true) db
+      && forallb (fun u => if live_lock target (u_lock u) && negb (u_spent_by tids u)
+                           then match find_utxo upost (u_id u) with
+                                | Some u' => option_eqb Z.eqb (u_lock u') (u_lock u) && option_eqb Z.eqb (u_owner u') (u_owner u)
+                                | None => false end
+                           else true) udb
   | _ => true
   end.
 
@@ -292,5 +327,13 @@ Definition tag_z (c : case) : Z :=
       | Err ESyncRequired => 36
       | _ => 37
       end
+  | CStore db udb target refs tids post upost =>
+      (* 38: some OTHER table holds a live lock on a row with the id of a spent output *)
+      let spent_ids := map snd refs ++ tids in
+      if existsb (fun r => live_lock target (r_lock r) && negb (spent_by refs r) && existsb (Z.eqb (r_id r)) spent_ids) db
+         || existsb (fun u => live_lock target (u_lock u) && negb (u_spent_by tids u) && existsb (Z.eqb (u_id u)) spent_ids) udb
+      then 38
+      else if existsb (fun r => spent_by refs r && match r_lock r with Some _ => true | None => false end) db then 39
+      else 40
   end.
 Definition tag_case (c : case) : N := Z.to_N (tag_z c).
